@@ -64,6 +64,7 @@ type MapObj struct {
 	Absent           Term
 	// Structured maps (values are executor values): only constant/identical keys are supported.
 	Struct   bool
+	Found    map[string]Term  // key term string -> "entry exists" (absent from this map = exists)
 	Entries  map[string]Value // key term string -> value
 	KeyTerms map[string]Term
 	Typ      *types.Map
@@ -83,6 +84,10 @@ func (m *MapObj) clone() *MapObj {
 		c.KeyTerms = make(map[string]Term, len(m.KeyTerms))
 		for k, v := range m.KeyTerms {
 			c.KeyTerms[k] = v
+		}
+		c.Found = make(map[string]Term, len(m.Found))
+		for k, v := range m.Found {
+			c.Found[k] = v
 		}
 	}
 	return &c
